@@ -159,6 +159,10 @@ func runC03(c *Ctx) {
 	addPt("3G", big.NewInt(3))
 	addPt("-G", new(big.Int).Sub(ref.N, big.NewInt(1)))
 	addPt("-2G", new(big.Int).Sub(ref.N, big.NewInt(2)))
+	// the two finite points with a zero coordinate, (0, ±sqrt(b)): not reachable by sampling [k]G
+	if y0 := new(big.Int).ModSqrt(ref.B, ref.P); y0 != nil && ref.OnCurve(new(big.Int), y0) {
+		points = append(points, pt{"x=0", nil, new(big.Int), y0}, pt{"x=0(-y)", nil, new(big.Int), new(big.Int).Sub(ref.P, y0)})
+	}
 	rp := c.Rng("points")
 	for i := 0; i < c.Q(4, 24); i++ {
 		addPt("random", new(big.Int).SetBytes(rp.Bytes(32)))
@@ -257,8 +261,8 @@ func runC03(c *Ctx) {
 
 	// (3) Add / Double
 	type addCase struct {
-		cls    string
-		p, q   ref.Point
+		cls  string
+		p, q ref.Point
 	}
 	var adds []addCase
 	inf := ref.Infinity()
